@@ -235,3 +235,18 @@ void harness_copy(void) {
   xrl_error_free(err);
   VH_END();
 }
+
+/* the two comparators (xrayvars.c) order by the FULL name: both agree with strcmp for names of up to CMPMAX bytes */
+#define CMPMAX 24
+static int sgn(int x) { return (x > 0) - (x < 0); }
+void harness_comparators(void) {
+  char a[CMPMAX + 1], b[CMPMAX + 1];
+  for (int k = 0; k < CMPMAX; k++) { a[k] = nondet_char(); b[k] = nondet_char(); }
+  a[CMPMAX] = 0; b[CMPMAX] = 0;
+  int ref = 0;
+  for (int k = 0; k <= CMPMAX; k++) { int x = a[k] & 0xFF, y = b[k] & 0xFF; if (x != y) { ref = x < y ? -1 : 1; break; } if (x == 0) break; }
+  Crystal_Struct ca, cb; ca.name = a; cb.name = b;
+  CHECK(sgn(matchCrystalStruct(a, &cb)) == ref, "lookup comparator orders by the full name (strcmp semantics)");
+  CHECK(sgn(compareCrystalStructs(&ca, &cb)) == ref, "sort comparator orders by the full name (strcmp semantics)");
+  VH_END();
+}
